@@ -29,8 +29,9 @@ RULE = ('client scripts of 1..12 frames over {text, binary, continuation, ping, 
         'non-minimal lengths, reserved opcodes; non-trivial = fragmented message, or control frame answered, or split inside a header, '
         'or poll with k = 1')
 ASSUMPTIONS = ['the client keeps reading, so the server\'s writes succeed (WriteError is outside the model)',
-               'loopback delivery: bytes written by the client are readable by the server within 12 ms (choreographed '
-               'non-blocking plans only; blocking plans do not depend on timing)',
+               'choreographed non-blocking plans: a recv_nonblocking call is started only after the bytes meant to be available have '
+               'become readable on the server socket (peek), and the client writes again only after the call has returned or is '
+               'known to be blocked inside a frame; blocking plans do not depend on timing',
                'a client starts sending frames only after it has read the 101 response (RFC 6455 4.1); bytes sent together with '
                'the HTTP request are subject to known finding F01 of C01']
 TRUSTED_EXTRA = ['tools/props/c11.py: independent Python RFC 6455 reference (script semantics, strict parser of the server\'s '
@@ -395,7 +396,14 @@ class NbSim:
 
     # one poll; `feed` is called when the poll is blocked and must return after writing more (or sending FIN)
     def poll(self, feed):
-        self.steps.append('p')
+        # q<k>: the harness starts the call once the k unread bytes are readable on the server side; j: it waits for the
+        # result before the client writes again (so the outcome does not depend on thread scheduling)
+        pos0 = self.bounds[self.idx] if self.idx < len(self.bounds) else self.total
+        self.steps.append('q%d' % max(0, self.arrived - pos0))
+        self._poll(feed)
+        self.steps.append('j')
+
+    def _poll(self, feed):
         acc = None
         while True:
             pos = self.bounds[self.idx] if self.idx < len(self.bounds) else self.total
@@ -775,7 +783,7 @@ def gen_cases(ctx):
             extra = rand_message(rng, False, 1)[0].wire()
             tail = extra[:rng.randrange(1, len(extra))]
         steps, polls, out, ks = nb_case(rng, frames, tail)
-        w = 2 + steps.count('w') + steps.count('p,') * 2
+        w = 2 + steps.count('w') // 4 + steps.count('q')
         cases.append(Case('nb', 'c11_nb ' + steps, frames, {'polls': polls, 'out': out.hex(), 'ks': ks, 'tail': tail.hex()}, w, 'nb'))
 
     # ---- (e) non-blocking, free-running ----
@@ -1023,10 +1031,11 @@ def run(ctx):
                            cls='model-vs-oracle', failing_input=False,
                            what='Coq model of the endpoint disagrees with the Python RFC 6455 reference on a well-formed script')
             if end == 'rst':
-                # what the server wrote cannot be observed.  The peer is gone: as soon as a reply (Pong) cannot be written the
-                # loop ends with WriteError, so the messages delivered are a prefix of the messages sent
+                # what the server wrote cannot be observed.  The peer is gone: a reply (Pong) written to it either fails
+                # (WriteError) or provokes a reset that fails the next read (ReadError) and discards what was still unread,
+                # so the messages delivered are a prefix of the messages sent, followed by one of the two errors
                 la, lb = res_a.split(';'), res_b.split(';')
-                ok = (lb == la) or (lb and lb[-1] in ('E:write', 'E:send') and lb[:-1] == la[:len(lb) - 1] and
+                ok = (lb == la) or (lb and lb[-1] in ('E:write', 'E:send', 'E:read') and lb[:-1] == la[:len(lb) - 1] and
                                     all(not x.startswith('E:') for x in lb[:-1]))
                 if not ok:
                     ctx.report(cj, 'impl res=' + res_b[:300], 'expected res=' + res_a[:300] + ' (or a prefix of the messages, then E:write)',
